@@ -133,5 +133,40 @@ def relations(rng, tier, rpt):
             bad.append({"property": "C09", "entry_point": enc.__name__, "request_lines": [],
                         "relation": "key object of the wrong curve is not refused with TypeError", "input": "%s key to %s" % (oc, fmt),
                         "impl_output": got, "model_output": "TypeError", "no_failing_input": False})
+    # encoders that take a SECOND key (Shelley staking key, Monero view key): the same refusals apply to it
+    from bip_utils import AdaShelleyAddrEncoder, XmrAddrEncoder, Ed25519MoneroPrivateKey, Ed25519Blake2bPrivateKey, Ed25519PublicKey
+    ed_ok = Ed25519PrivateKey.FromBytes(bytes(range(32))).PublicKey()
+    xm_ok = Ed25519MoneroPrivateKey.FromBytes((12345).to_bytes(32, "little")).PublicKey()
+    foreign = dict(objs)
+    foreign["ed25519blake2b"] = Ed25519Blake2bPrivateKey.FromBytes(bytes(32)).PublicKey()
+    foreign["ed25519monero"] = xm_ok
+    second = [("AdaShelleyAddrEncoder(pub_skey)", "ed25519", lambda k2: AdaShelleyAddrEncoder.EncodeKey(ed_ok, pub_skey=k2)),
+              ("XmrAddrEncoder(pub_vkey)", "ed25519monero", lambda k2: XmrAddrEncoder.EncodeKey(xm_ok, pub_vkey=k2, net_ver=b"\x12"))]
+    for name, own, f in second:
+        for oc, obj in foreign.items():
+            if oc == own or (own == "ed25519" and oc == "ed25519monero"):     # the Monero key class is a subclass of the ed25519 one
+                continue
+            n += 1
+            try:
+                f(obj)
+                got = "ok"
+            except TypeError:
+                continue
+            except Exception as ex:  # noqa
+                got = type(ex).__name__
+            bad.append({"property": "C09", "entry_point": name, "request_lines": [], "relation": "second key object of the wrong curve is not refused with TypeError",
+                        "input": "%s key" % oc, "impl_output": got, "model_output": "TypeError", "no_failing_input": False})
+        for junk in (b"", bytes(31), b"\x05" + bytes(32), bytes(34), bytes(64) + b"\x01"):        # wrong lengths / prefix (point validity is C12's business)
+            n += 1
+            try:
+                f(junk)
+                got = "ok"
+            except ValueError:
+                continue
+            except Exception as ex:  # noqa
+                got = type(ex).__name__
+            if True:
+                bad.append({"property": "C09", "entry_point": name, "request_lines": [], "relation": "second key bytes that are not a valid key are not refused with ValueError",
+                            "input": junk.hex(), "impl_output": got, "model_output": "ValueError", "no_failing_input": False})
     rpt.extra["wrong_curve_checks"] = n
     return bad[:6]
